@@ -15,6 +15,7 @@ type Item struct {
 	B      []byte
 	L      []*Item
 	Mode   int // how to write the header, see enc
+	Claim  *uint64 // if set: the size the header declares, whatever the payload is
 }
 
 const (
@@ -68,7 +69,26 @@ func head(base byte, n uint64, mode int) []byte {
 	return append([]byte{base + 55 + byte(len(lb))}, lb...)
 }
 
+// canonical header for a declared size
+func claimHead(base byte, n uint64) []byte {
+	if n < 56 {
+		return []byte{base + byte(n)}
+	}
+	lb := minBE(n)
+	return append([]byte{base + 55 + byte(len(lb))}, lb...)
+}
+
 func enc(it *Item) []byte {
+	if it.Claim != nil {
+		if !it.IsList {
+			return append(claimHead(0x80, *it.Claim), it.B...)
+		}
+		var p []byte
+		for _, x := range it.L {
+			p = append(p, enc(x)...)
+		}
+		return append(claimHead(0xC0, *it.Claim), p...)
+	}
 	sb, lb := byte(0x80), byte(0xC0)
 	if it.Mode == mKindFlip {
 		sb, lb = lb, sb
